@@ -54,6 +54,12 @@ func init() {
 					ts = append(ts, Task{Pkg: "oned", Func: "VerifC20Scale", Args: ints(p.idx, bitsPer, 3, p.num, p.den), Backends: fp, Timeout: to})
 				}
 			}
+			// exact threshold behaviour where float64 is exact: P a power of two, limit 1/2 (ITF start {1,1,1,1})
+			bb := int64(3)
+			if tier == "thorough" {
+				bb = 4
+			}
+			ts = append(ts, Task{Pkg: "oned", Func: "VerifC20Boundary", Args: ints(11, bb), Backends: fp, Timeout: 300, Note: "pattern {1,1,1,1}, bits per counter; limit 0.5: exact at the threshold"})
 			return ts
 		},
 		Bounds: func(tier string) map[string]interface{} {
